@@ -224,8 +224,9 @@ pub fn build(quick: bool) -> Vec<Scenario> {
         v.push(mk_flag(w, &[('C', "W"), ('C', "W")], "F", Some(0)));
     }
     if !quick {
-        v.push(mk_sem(2, 0, &[('C', "W"), ('C', "W"), ('C', "T")], "PP", Some(1)));
-        v.push(mk_sem(2, 1, &[('C', "WP"), ('C', "WP")], "W", None));
+        // enough posts for every wait that can succeed (a cancelled waiter may still take a permit on the fast path)
+        v.push(mk_sem(2, 0, &[('C', "W"), ('C', "W"), ('C', "T")], "PPP", Some(1)));
+        v.push(mk_sem(2, 1, &[('C', "WP"), ('C', "WP")], "WP", None));
         v.push(mk_flag(2, &[('C', "W"), ('C', "W"), ('C', "T")], "F", Some(1)));
     }
     v.into_iter().map(|s| s.tier(quick)).collect()
